@@ -791,6 +791,9 @@ func (w *joeWorld) evaluate(res verifhook.Result, bubblePanic string) {
 			clause = "panic-in-provider"
 		}
 		o.violate("C06", clause, "task %s panicked: %s", t.Name, t.PanicInfo)
+		if strings.HasPrefix(t.Name, "shutdown") || t.Name == "closer" {
+			o.violate("C07", "shutdown-panics", "a Shutdown call panicked: %s", t.PanicInfo)
+		}
 	}
 	if len(res.Panicked) > 0 {
 		return // in a real process this is a crash; nothing after it means anything
